@@ -68,6 +68,8 @@ def _to_func_input(x, backend, require_grad=False):
     """
     if require_grad and backend.supports_autograd():
         return backend.create_grad_tensor(x)
+    if hasattr(backend, 'numeric_grad_input'):
+        return backend.numeric_grad_input(x)
     return x
 
 
